@@ -19,6 +19,7 @@ def run(ctx, crate):
     K.rule_emit_single(ctx, crate)
     K.rule_emitter_callers(ctx, crate)
     D.rule_draw_order(ctx, crate)
+    D.rule_erase_arith(ctx, crate)
     rule_commit_on_success(ctx, crate)
     D.rule_llc_writers(ctx, crate)
     rule_suspend_protocol(ctx, crate)
